@@ -362,6 +362,8 @@ def xreg(c):
 def plant(rng, base, rule):
     spec = copy.deepcopy(base)
     spec["usage"] = {}
+    for c in spec["ctors"]:
+        c["override"] = None   # this family renders its registrations itself (`Tree.flatten`): no blueprint-level overrides
     t, place = nestify(rng, spec)
     M = spec["name"]
     info = {"rule": rule, "expect": RULES[rule]}
